@@ -1,4 +1,12 @@
-import ErgoModel.Exec
+/-
+  C14 — Every task's epic reference names a live epic.
+-/
+import ErgoProofs.Lemmas.ReachInv
 namespace Ergo
-theorem C14_placeholder : True := trivial
+
+/-- at all times each task's epic is empty or the id of an existing, unpruned epic; epics belong to nothing -/
+theorem C14_inv_reach (log : List Event) (h : ReachOK log) : ∃ g, replay log = .ok g ∧ Inv14 g ∧ WF g := by
+  obtain ⟨g, hr, hinv⟩ := reach_replay log h
+  exact ⟨g, hr, hinv.i14, hinv.ok.wf⟩
+
 end Ergo
